@@ -32,7 +32,7 @@ def header(prog, ncpu):
     jobs, batches, seen = [], [], set()
     for c in prog['clients']:
         for o in c['ops']:
-            if o['op'] == 'Add' and o.get('job', 0) not in seen:
+            if o['op'] in ('Add', 'RawAd') and o.get('job', 0) not in seen:
                 seen.add(o['job'])
                 jobs.append({'key': o['job'], 'q': o.get('q', 0) + 1, 'prio': o.get('prio', 0), 'b': 0,
                              'out': prog.get('outcome', {}).get(str(o['job']), 'ok')})
@@ -88,9 +88,13 @@ def normalise(ep, ncpu):
         if ev == 'call':
             items = [it['job'] for it in (e.get('items') or [])]
             pend_items[e['p']] = items
+            if e['op'] == 'RawAd':
+                e = dict(e, op='Add', q=0)
             out.append(mk(ev='call', p=e['p'], op=e['op'], job=e.get('job', 0), qi=e.get('q', 0) + 1, b=e.get('b', 0), n=e.get('n', 0),
                           items=items, line=e['seq']))
         elif ev == 'ret':
+            if e['op'] == 'RawAd':
+                e = dict(e, op='Add', q=0)
             d = mk(ev='ret', p=e['p'], op=e['op'], job=e.get('job', 0), qi=e.get('q', 0) + 1, b=e.get('b', 0), res=e.get('res', ''),
                    ok=bool(e.get('ok', False)), line=e['seq'])
             d['items'] = pend_items.pop(e['p'], []) if e['op'] == 'AddAll' else []
